@@ -767,6 +767,9 @@ def suite_includes(exe, tier, seed):
                   dict(reachable=["a.circom"], must_error=(".", "a.circom:2"))))
     cases.append(("directory-shadows-library-file", {"a.circom": A(["u.circom"]) + tpl("A") + main_a, "u.circom/keep.txt": "", "lib/u.circom": PRAGMA + tpl("U", True)}, None, ["-L", "lib", "a.circom"],
                   dict(reachable=["a.circom", "lib/u.circom"], analyzed={"A"}, findings_in=["a.circom"])))
+    # a named directory that contains symbolic links to itself and to its parent: walked once
+    cases.append(("directory-with-links-to-itself", {"d/a.circom": PRAGMA + tpl("A", True), "d/sub/b.circom": PRAGMA + tpl("B", True)}, {"d/loop1": "d", "d/loop2": "d", "d/sub/up": "d"}, ["d"],
+                  dict(reachable=["d/a.circom", "d/sub/b.circom"], analyzed={"A", "B"})))
     for (name, files, links, args, exp) in cases:
         d = project(files, links)
         try:
@@ -814,7 +817,7 @@ def suite_includes(exe, tier, seed):
     return {"unit": "e2e-includes", "evaluations": evals, "distinct_nontrivial": nontrivial, "exhaustive": False,
             "rule": "the real CLI under strace on small multi-file projects: it terminates with exit 0/1; every reachable file is opened exactly once whatever paths or spellings lead to it; a shadowed file is not opened; only templates of the files named on the command line are analyzed and only those files carry findings; an unresolvable include is an error located at the include statement",
             "strace_available": strace_seen,
-            "bound": "23 include graphs (5 more on library files answering only single-component includes, library sub-paths, an unresolvable include in a file that is both included and named): chain, diamond, cycle, self-include, ./ and ../ spellings, resolution relative to the including file, -L library, relative-before-library, a library file that is also named, a library file reached by two routes, symlink, both files named (either order), a file named twice and included, unresolved include",
+            "bound": "24 include graphs (5 more on library files answering only single-component includes, library sub-paths, an unresolvable include in a file that is both included and named): chain, diamond, cycle, self-include, ./ and ../ spellings, resolution relative to the including file, -L library, relative-before-library, a library file that is also named, a library file reached by two routes, symlink, both files named (either order), a file named twice and included, unresolved include",
             "samples": samples, "violations": viol}
 
 
@@ -845,6 +848,8 @@ def totality_cases(tier):
         ("sum-chain-2000", T("y <== " + " + ".join(["x"] * 2000) + ";"), []),
         # a 69-line function produced by the scopes generator: ifs, whiles and a for nested three deep around one counter
         ("nested-control-flow-function", open(os.path.join(os.path.dirname(os.path.abspath(__file__)), "fixtures", "nested_control_flow_function.circom")).read(), []),
+        ("nested-index-20", T("y <== " + "a[" * 20 + "0" + "]" * 20 + ";", "signal input a[4]; signal output y;"), []),
+        ("nested-index-40-in-condition", T("var v = 0; if (" + "a[" * 40 + "0" + "]" * 40 + " == 1) { v = 1; }\ny <== a[0] + v;", "signal input a[4]; signal output y;"), []),
         ("unary-chain-200", T("var v = " + "-" * 200 + "1;\ny <== x + v;"), []),
         ("not-chain-200", T("var v = " + "!" * 200 + "1;\ny <== x + v;"), []),
         ("huge-decimal-literal", T(f"var v = {big};\ny <== x + v;"), []),
